@@ -1229,6 +1229,17 @@ class Translator:
             ast.copy_location(asg, st)
             ast.fix_missing_locations(asg)
             return self.block([asg] + list(rest), env, frame)
+        if self.key(st) in self.spec.get("stmt_rewrites", {}):
+            # a call into a library outside the subset whose effect the spec states as assignments from externals
+            new = ast.parse(textwrap.dedent(self.spec["stmt_rewrites"][self.key(st)])).body
+            for n_ in new:
+                for m_ in ast.walk(n_):
+                    ast.copy_location(m_, st)
+            return self.block(list(new) + list(rest), env, frame)
+        if isinstance(st, ast.Raise) and st.exc is not None and st.cause is None and self.key(st.exc) in self.spec.get("raise_as", {}):
+            # `raise X` for an exception the spec maps to one of PyRt's
+            self.raises = True
+            return frame.raise_("PyRt.Err." + self.spec["raise_as"][self.key(st.exc)], env)
         if self.dropped(st):
             return self.block(rest, env, frame)
         if any(ast.unparse(st).startswith(p) for p in self.spec.get("drop_stmts", ())):
